@@ -16,6 +16,7 @@ C05.funnel : the three parsers share one: hybrid -> class -> class_to_table -> t
 import ast
 
 from ..core import RefGraph, iter_own, norm, short
+from ..region import Region
 from ..fold import ModuleEnv, Unknown
 from ..vocab import keywords_written
 from ..walker import GuardWalker
@@ -466,8 +467,22 @@ def run(ctx):
             for r in rets:
                 ok = isinstance(r.value, ast.Call) and index.callee(f.mod, r.value, f) == target.qual
                 if ok and via is not None:
-                    a0 = r.value.args[0] if r.value.args else None
-                    ok = isinstance(a0, ast.Call) and index.callee(f.mod, a0, f) == via
+                    from ..defuse import expand_aliases
+
+                    # sqlalchemy_table(sqlalchemy_class_to_table(...)) — directly, through an explaining variable, or
+                    # unwrapped (`t.value if isinstance(t, Assign) else t`): every alternative of the argument is rooted at
+                    # the class_to_table call
+                    a0 = index.bound_args(f.mod, r.value, f).get("call_or_name", r.value.args[0] if r.value.args else None)
+                    full = expand_aliases(f, a0) if a0 is not None else None
+
+                    def rooted(e):
+                        if isinstance(e, ast.IfExp):
+                            return rooted(e.body) and rooted(e.orelse)
+                        if isinstance(e, ast.Attribute):
+                            return rooted(e.value)
+                        return isinstance(e, ast.Call) and index.callee(f.mod, e, f) == via
+
+                    ok = full is not None and rooted(full)
                 ctx.ob(
                     "C05.funnel",
                     f,
@@ -477,6 +492,126 @@ def run(ctx):
                 )
 
     ctx.section(_sec_funnel)
+
+    def _sec_hybrid():
+        """
+        C05.hybrid — the hybrid form is `__table__ = Table("name", ...)`. The Table parser takes the name of an
+        assignment from its TARGET and insists that it equals the table's own name; class_to_table selects the
+        hybrid assignment by its target `__table__`. Handing that assignment over as it is makes the name check
+        fail for every table that is not called `__table__`: the hybrid emission cannot be parsed at all, so the three
+        variants do not agree. Somewhere on the way the Table CALL (`.value`) must be taken, or the name check must go.
+        """
+        from ..defuse import expand_aliases
+
+        cls = index.func("cdd.sqlalchemy.parse.sqlalchemy")
+        tbl = index.func("cdd.sqlalchemy.parse.sqlalchemy_table")
+        c2t = index.func(EU + "sqlalchemy_class_to_table")
+        # (1) does the Table parser name an assignment after its target and compare that with the table's first argument?
+        name_from_target = set()
+        for n in iter_own(tbl.node):
+            if isinstance(n, ast.Assign):
+                pairs = []
+                for t in n.targets:
+                    if isinstance(t, ast.Tuple) and isinstance(n.value, ast.Tuple) and len(t.elts) == len(n.value.elts):
+                        pairs += list(zip(t.elts, n.value.elts))
+                    else:
+                        pairs.append((t, n.value))
+                for t, v in pairs:
+                    if isinstance(t, ast.Name) and "targets[0].id" in norm(v) or isinstance(t, ast.Name) and norm(v).endswith(".target.id"):
+                        name_from_target.add(t.id)
+        checked = False
+        for n in iter_own(tbl.node):
+            txt = None
+            if isinstance(n, ast.Call) and norm(n.func).endswith("assert_equal") and len(n.args) >= 2:
+                txt = [norm(a) for a in n.args[:2]]
+            elif isinstance(n, ast.Assert) and isinstance(n.test, ast.Compare) and len(n.test.ops) == 1 and isinstance(n.test.ops[0], ast.Eq):
+                txt = [norm(n.test.left), norm(n.test.comparators[0])]
+            if txt and any(x in name_from_target for x in txt) and any("args[0]" in x for x in txt):
+                checked = True
+        # (2) does class_to_table return the assignment it selected by the constant target `__table__`, as it is?
+        raw = False
+        for r in iter_own(c2t.node):
+            if isinstance(r, ast.Return) and r.value is not None:
+                full = expand_aliases(c2t, r.value)
+                if any(isinstance(x, ast.Constant) and x.value == "__table__" for x in ast.walk(full)):
+                    raw = raw or not (isinstance(r.value, ast.Attribute) and r.value.attr == "value")
+        # (3) does the class parser unwrap it before the Table parser sees it?
+        unwrapped = False
+        for g_, n in Region(index, graph, cls).nodes():
+            if isinstance(n, ast.Call) and index.callee(g_.mod, n, g_) == tbl.qual:
+                a0 = index.bound_args(g_.mod, n, g_).get("call_or_name", n.args[0] if n.args else None)
+                full = expand_aliases(g_, a0) if a0 is not None else None
+                if full is not None and any(isinstance(x, ast.Attribute) and x.attr == "value" for x in ast.walk(full)):
+                    unwrapped = True
+        ok = not (checked and raw and not unwrapped)
+        ctx.ob(
+            "C05.hybrid",
+            cls,
+            "the hybrid `__table__ = Table(name, ...)` reaches the Table parser as the Table call, not as an assignment named `__table__`",
+            ok,
+            ""
+            if ok
+            else "sqlalchemy_class_to_table hands the hybrid assignment `__table__ = Table('name', ...)` over as it is, and "
+            "sqlalchemy_table names an assignment after its target and asserts that this equals the table's own name: "
+            "'name' != '__table__' — parsing any hybrid emission raises AssertionError, so the three variants do not agree",
+            line=cls.node.lineno,
+        )
+
+    ctx.section(_sec_hybrid)
+
+    def _sec_samemap():
+        """
+        C05.pk (same mapping) — ensure_has_primary_key accepts either the interface description or its `params`
+        mapping and works on the latter. Whether a column called K already exists must be asked of the mapping the
+        new column is stored INTO: a test against another spelling (`intermediate_repr.get("params", ...)`) is empty
+        whenever the mapping itself was handed in — as both emitters do — so the synthetic `id` primary key silently
+        overwrites a user column named `id` (type and description lost in all three variants).
+        """
+        from ..defuse import expand_aliases
+
+        n_ = 0
+        for g_ in Region(index, graph, ehp).funcs:
+            created = {}  # constant key -> receiver text of `<recv>[K] = {...}` (a new column entry)
+            for n in iter_own(g_.node):
+                if isinstance(n, ast.Assign) and len(n.targets) == 1 and isinstance(n.targets[0], ast.Subscript):
+                    t = n.targets[0]
+                    if isinstance(t.slice, ast.Constant) and isinstance(t.slice.value, str) and isinstance(t.value, ast.Name) and isinstance(n.value, (ast.Dict, ast.Call)):
+                        if isinstance(n.value, ast.Call) and norm(n.value.func) not in ("dict", "OrderedDict"):
+                            continue
+                        created[t.slice.value] = t.value.id
+            for k_, recv in sorted(created.items()):
+                for n in iter_own(g_.node):
+                    if isinstance(n, ast.Compare) and len(n.ops) == 1 and isinstance(n.ops[0], (ast.In, ast.NotIn)) and isinstance(n.left, ast.Constant) and n.left.value == k_:
+                        n_ += 1
+                        c_ = n.comparators[0]
+                        same = (isinstance(c_, ast.Name) and c_.id == recv) or (
+                            isinstance(c_, ast.Call) and isinstance(c_.func, ast.Attribute) and c_.func.attr == "keys" and isinstance(c_.func.value, ast.Name) and c_.func.value.id == recv
+                        )
+                        ctx.ob(
+                            "C05.pk",
+                            g_,
+                            "whether a column {!r} exists is asked of the mapping the new {!r} column is stored into".format(k_, k_),
+                            same,
+                            ""
+                            if same
+                            else "`{}` does not look at `{}`, the mapping `{}[{!r}] = ...` writes to: when the params mapping itself "
+                            "is passed in (as both emitters do) the test finds nothing and the synthetic primary key overwrites "
+                            "the user's own {!r} column".format(short(n, 70), recv, recv, k_, k_),
+                            line=n.lineno,
+                        )
+        ctx.count("column_existence_tests_before_a_synthetic_column", n_)
+
+    ctx.section(_sec_samemap)
+
+    def _sec_strip():
+        # the [PK] / [FK(target)] markers are cut out of and glued into doc strings: an affix removed with a strip-family
+        # call (a character SET) eats the first letters of a target such as `Farm.id`
+        from .c08 import strip_rule
+
+        fs = [f for f in index.nontest_funcs() if f.mod.name.startswith("cdd.sqlalchemy.")]
+        ctx.count("strip_calls_in_sqlalchemy_modules", strip_rule(ctx, "C05.strip", fs))
+
+    ctx.section(_sec_strip)
 
     def _sec_stale():
         from ..keystate import stale_rule
